@@ -4,7 +4,8 @@ Spec        : ContentsSet.tla — a set is a function normalised-path -> value; 
               (Norm = what normpath does to an absolute path); one operator per public operation:
               add / remove / del / discard / [] / in (argument: an entry or a path STRING in any spelling),
               update, union / intersection / difference / symmetric_difference (+ *_update),
-              issubset / issuperset / isdisjoint (argument: another set or a generator of entries),
+              issubset / issuperset / isdisjoint (argument: another set, or a generator / list / tuple / Python
+              set of entries, duplicates included; path strings as elements where only keys are needed),
               change_offset / insert_offset, add_missing_directories, clear, len, iteration.
 MC          : ContentsSet_Laws (the algebra of keys, spelling independence, relocation is a bijection with
               inverse and composition, missing directories = least closed extension) and ContentsSet_MC
@@ -19,7 +20,8 @@ Carve-outs (counted, never judged):
   * relocation when an entry does not lie under the old offset, or the old offset is not written in
     normal form (trailing slashes allowed): "Unspecified";
   * spellings starting with exactly two slashes (POSIX: implementation defined; normpath keeps them),
-    relative paths; arguments of the set algebra that are plain lists/sets of entries (DESIGN C22).
+    relative paths; path strings as elements of union / intersection / symmetric_difference / update
+    arguments (those need the entry itself).
 """
 from pylib import tlc
 from pylib.common import rng, seed, use_repo
@@ -28,6 +30,8 @@ KINDS = ["file", "dir", "sym", "fifo", "dev"]
 BINPURE = ["union", "intersection", "difference", "symmetric_difference"]
 BINUPD = ["intersection_update", "difference_update", "symmetric_difference_update"]
 TESTS = ["issubset", "issuperset", "isdisjoint"]
+KEYONLY = ["difference", "difference_update", "intersection_update"] + TESTS  # elements may be path strings
+HOWS = ["set", "gen", "list", "tuple", "pyset"]
 BYKEY = ["remove", "delitem", "discard", "getitem", "contains"]
 RELOC = ["change_offset", "insert_offset"]
 BAD_TOK = ("", ".", "..")
@@ -82,10 +86,21 @@ class World:
         return out
 
     def other(self, a):
-        ents = [self.mk(e) for e in a["arg"]]
-        if a["how"] == "set":
-            return self.contents.contentsSet(ents)
-        return (x for x in ents)
+        """The argument of a set operation: its elements (entries, or path strings for kind "str") in the
+        container named by `how`."""
+        elems = [render(e["sp"]) if e["kind"] == "str" else self.mk(e) for e in a["arg"]]
+        how = a["how"]
+        if how == "set":
+            return self.contents.contentsSet(elems)
+        if how == "gen":
+            return (x for x in elems)
+        if how == "list":
+            return list(elems)
+        if how == "tuple":
+            return tuple(elems)
+        if how == "pyset":
+            return set(elems)
+        raise tlc.MachineryError(f"unknown argument container {how}")
 
     def apply(self, a):
         """Execute one action on self.cs; returns the observation fields."""
@@ -229,8 +244,15 @@ def random_history(r_, steps):
                 arg += [dict(sp=list(k), id=1, kind="file") for k in keys]
             if op in ("issuperset",) and keys and r_.random() < 0.5:
                 arg = [dict(sp=respell(r_, list(k)), id=2, kind="dir") for k in r_.sample(sorted(keys), min(len(keys), 2))]
+            if arg and r_.random() < 0.3:
+                arg.append(dict(r_.choice(arg)))  # the same element twice
+            how = r_.choice(HOWS)
+            if op in KEYONLY and how != "set" and r_.random() < 0.5:
+                for e in arg:
+                    if r_.random() < 0.6:
+                        e.update(kind="str", id=0)  # a path string instead of an entry
             r_.shuffle(arg)
-            a.update(arg=arg, how=r_.choice(["set", "gen"]), adopt=op in BINPURE and r_.random() < 0.5)
+            a.update(arg=arg, how=how, adopt=op in BINPURE and r_.random() < 0.5)
         elif op in RELOC:
             new = respell(r_, r_.choice(offsets)) if r_.random() < 0.5 else list(r_.choice(offsets))
             old = []
@@ -261,7 +283,7 @@ def random_history(r_, steps):
 def run(ck):
     use_repo()
     ck.rule = ("operation sequences on one real contentsSet (all public set/map operations, arguments as entry / "
-               "path string / other set / generator of entries, offsets, missing directories); chosen by TLC simulation "
+               "path string / other set / generator, list, tuple or Python set of entries or path strings, offsets, missing directories); chosen by TLC simulation "
                "of ContentsSet_Sim and by a seeded random generator over random path pools with un-normalised "
                "spellings; non-trivial = distinct sequence in which at least one argument is spelled un-normalised")
     ck.assumptions = [
